@@ -245,6 +245,7 @@ func (x *Exec) assumeSliceWF(s *State, v Val) {
 	// the backing array of a slice value that exists is an allocated object (so an array allocated
 	// later is a different one)
 	s.assume(mk(SBool, ">=", v.Arr, IntLit(0)))
+	x.assumed["the backing array of a slice value read from memory or returned by a call is an allocated object"] = true
 	x.assumeAllocated(s, v.Arr)
 }
 
